@@ -36,7 +36,7 @@ def run(tier, seed):
     thm = check_theorems("C07")
     bad = []
     # (1) the step uses the velocities at both ends: last_velocity/last_position hold the previous values
-    vc, vmeta, _ = p01.verlet_cases(res, rng, 60 if tier == "quick" else 600)
+    vc, vmeta, _ = p01.verlet_cases(res, rng, 60 if tier == "quick" else 4000)
     for m in vmeta:
         if not m.get("last_ok", True):
             bad.append(dict(failed="after a step, last_velocity / last_position hold the values from before the step (they define the midpoint generator)", case={k: m[k] for k in ("cls", "mass", "x", "v", "dt")})); break
